@@ -27,6 +27,9 @@ def load_catalogue():
   return mod.CATALOGUE
 
 
+ALPHA = False
+
+
 def run_one(entry, tier, repo):
   tmp = tempfile.mkdtemp(prefix='pvmut_', dir='/tmp')
   try:
@@ -48,6 +51,14 @@ def run_one(entry, tier, repo):
                          capture_output=True, text=True)
       if r.returncode != 0:
         return entry, 'STALE', 'mutant does not parse: ' + r.stderr[-200:]
+    if ALPHA:
+      # compose with the alpha-renaming of every local variable: verdicts must not depend on local names
+      r = subprocess.run([sys.executable, os.path.join(VERIF, 'tools', 'alpha_rename.py'), os.path.join(tmp, 'precondition'), os.path.join(tmp, 'precondition_alpha')],
+                         capture_output=True, text=True)
+      if r.returncode != 0:
+        return entry, 'STALE', 'alpha renaming failed: ' + r.stderr[-200:]
+      shutil.rmtree(os.path.join(tmp, 'precondition'))
+      os.rename(os.path.join(tmp, 'precondition_alpha'), os.path.join(tmp, 'precondition'))
     env = dict(os.environ, PYTHONPATH=VERIF, PYTHONDONTWRITEBYTECODE='1')
     out = {}
     for prop in entry['props']:
@@ -67,7 +78,10 @@ def main():
   ap.add_argument('--only', default='')
   ap.add_argument('--repo', default='/repo')
   ap.add_argument('-v', action='store_true')
+  ap.add_argument('--alpha', action='store_true', help='additionally rename every local variable in the scratch copy')
   a = ap.parse_args()
+  global ALPHA
+  ALPHA = a.alpha
   cat = load_catalogue()
   todo = [e for e in cat if (not a.props or set(e['props']) & set(a.props)) and a.only in e['name']]
   if a.props:
